@@ -56,7 +56,11 @@ func init() {
 			&commitmenttypes.MsgUpdateEnableVestNow{Authority: w.Gov, EnableVestNow: true}) {
 			c.Ev("vesting_info_changed")
 		}
-		g.Free(n/2, g.StdDt)
+		if c.Job.Index%3 == 1 && !w.Dead {
+			NewChaos(c, w, g).Run(n/2, g.StdDt)
+		} else {
+			g.Free(n/2, g.StdDt)
+		}
 		// run the schedules out and claim everything
 		for i := int64(0); i < nb+2 && !w.Dead; i++ {
 			w.Step(5)
